@@ -96,7 +96,7 @@ func (this *Allocator) getPartitionsNodeIds(partitionCount uint, replicationFact
 			nodeIds[i], nodeIds[j] = nodeIds[j], nodeIds[i]
 		})
 
-		partitionsNodeIds[i] = nodeIds[:math.MinInt(len(nodeIds), int(replicationFactor))]
+		partitionsNodeIds[i] = append([]uint64{}, nodeIds[:math.MinInt(len(nodeIds), int(replicationFactor))]...)
 	}
 
 	return partitionsNodeIds
